@@ -221,6 +221,17 @@ func buildSmtpMsg(i int, sm SmtpMsg) *mail.Msg {
 		if err := m.SignWithKeypair(key, cert, nil); err != nil {
 			m.SetBodyWriter(mail.TypeTextPlain, producer([][]byte{nil}, true))
 		}
+	} else if sm.RenderFail && sm.FailVia == "fs-gone" {
+		// an attachment from the file system whose file is gone when the message is sent
+		m.SetBodyString(mail.TypeTextPlain, body)
+		if f, err := os.CreateTemp("", "gmverif-gone-*.txt"); err == nil {
+			_, _ = f.WriteString("this file will not be there when the message is written\r\n")
+			_ = f.Close()
+			m.AttachFile(f.Name())
+			_ = os.Remove(f.Name())
+		} else {
+			m.SetBodyWriter(mail.TypeTextPlain, producer([][]byte{nil}, true))
+		}
 	} else if sm.RenderFail && sm.FailVia != "" {
 		m.SetBodyString(mail.TypeTextPlain, body)
 		ferr := error(errProducer)
